@@ -93,23 +93,24 @@ theorem bds50_readers_as_modelled :
   Rs1090.Proofs.GenBds.bds50_readers
 
 open Rs1090.Proofs.GenBds in
-/-- **BDS 6,0: `read_heading`, `read_ias`, `read_vertical` are the model's `heading` (1/512°), `ias`, `vertical`**
-    on every value of the bits read (2^12, 2^11, 2^11 codes). -/
+/-- **BDS 6,0: `read_heading`, `read_ias`, `read_mach`, `read_vertical` are the model's `heading` (1/512°), `ias`,
+    `mach` (code/250; exact-rational reading of `value as f64 * 2.048 / 512.`), `vertical`** on every value of the bits
+    read (2^12, 2^11, 2^11, 2^11 codes) and, for Mach, every airspeed (any natural number) or none. -/
 theorem bds60_readers_as_modelled :
     (∀ s g v, g < 2 ^ 1 → v < 2 ^ 10 →
       Gen.BdsFns.Bds60.read_heading s g v = scaled 1 512 (Model.Bds60.heading s g v)) ∧
     (∀ s v, v < 2 ^ 10 →
       Gen.BdsFns.Bds60.read_ias s v = Model.Bds60.ias s v) ∧
+    (∀ (i : Option Nat) s v, v < 2 ^ 10 →
+      Gen.BdsFns.Bds60.read_mach i s v = scaledN 1 250 (Model.Bds60.mach i s v)) ∧
     (∀ s g v, g < 2 ^ 1 → v < 2 ^ 9 →
       Gen.BdsFns.Bds60.read_vertical s g v = Model.Bds60.vertical s g v) :=
   Rs1090.Proofs.GenBds.bds60_readers
 
-/- Full statements for the two readers that take a second DECODED field (not proved: 301 × 2^11 and 500 × 2^11
-   kernel evaluations at ~2 ms each; these two `fn` items therefore stay digest-pinned):
+/- Full statement for `read_tas`, which takes the DECODED ground speed (not proved: 301 × 2^11 kernel evaluations
+   at ~2 ms each; `fn read_tas` therefore stays digest-pinned):
      ∀ gs, (gs = none ∨ ∃ k ≤ 300, gs = some (2 * k)) → ∀ s v, v < 2 ^ 10 →
-        Gen.BdsFns.Bds50.read_tas gs s v = Model.Bds50.tas gs s v
-     ∀ i, (i = none ∨ ∃ k, 1 ≤ k ∧ k ≤ 500 ∧ i = some k) → ∀ s v, v < 2 ^ 10 →
-        Gen.BdsFns.Bds60.read_mach i s v = scaledN 1 250 (Model.Bds60.mach i s v)                                  -/
+        Gen.BdsFns.Bds50.read_tas gs s v = Model.Bds50.tas gs s v                                                   -/
 
 open Rs1090.Proofs.GenBds in
 /-- `read_tas` is the model's `tas` on all 2^11 codes for the ground speeds of `tasGs` (absent, and the values
@@ -117,13 +118,6 @@ open Rs1090.Proofs.GenBds in
 theorem bds50_read_tas_as_modelled_partial : ∀ gs ∈ tasGs, ∀ s v, v < 2 ^ 10 →
     Gen.BdsFns.Bds50.read_tas gs s v = Model.Bds50.tas gs s v :=
   Rs1090.Proofs.GenBds.bds50_tas_sampled
-
-open Rs1090.Proofs.GenBds in
-/-- `read_mach` (exact-rational reading: Mach = code/250) is the model's `mach` on all 2^11 codes for the airspeeds of
-    `machIas` (absent, and the values around both thresholds) -/
-theorem bds60_read_mach_as_modelled_partial : ∀ i ∈ machIas, ∀ s v, v < 2 ^ 10 →
-    Gen.BdsFns.Bds60.read_mach i s v = scaledN 1 250 (Model.Bds60.mach i s v) :=
-  Rs1090.Proofs.GenBds.bds60_mach_sampled
 
 /-- the layouts the model's `read` functions use (`flag`, `bits 1`, `bits 9|10`) are the reads of the Rust readers -/
 theorem bds_reader_layouts :
